@@ -221,6 +221,18 @@ CHECKS = {
         "Faults are injected at the std::io call boundary of the object handed to the crate; metadata::update on a real path is not fault-injected.",
         "DESIGN.md section 4 C13",
     ),
+    "C18": (
+        "differential proptest: crate built with the rayon feature, run in thread pools of 1-16 workers with competing load, vs the serial build as oracle process",
+        "exploration",
+        "Cases biased to 2-8 channels and ties (identical / mirrored / silent channels) are encoded by a second harness build (crate "
+        "feature rayon) inside dedicated pools of 1, 2, 3, 4, 8, 16 workers, three times each, with and without busy tasks competing "
+        "in the same pool; output bytes or error must equal the serial build's, served by a child process of the plain harness "
+        "binary. Interleavings are sampled (pool size x repetition x load), not enumerated: order-dependent reductions, shared-cache "
+        "leaks and tie-breaking differences are caught when some pool size exposes them; a race confined to a rare interleaving can "
+        "be missed.",
+        "rayon's scheduler cannot be owned from outside; loom/shuttle would require replacing rayon's primitives.",
+        "DESIGN.md section 4 C18",
+    ),
 }
 
 NOT_YET = {}
